@@ -16,6 +16,7 @@ import sys
 sys.path.insert(0, os.path.dirname(os.path.abspath(__file__)))
 from common import *  # noqa
 import gen_express as G
+from c17 import enrich
 
 PID = "C18"
 PYKW = {"assert", "async", "await", "break", "class", "continue", "def", "del", "elif", "except", "finally", "global",
@@ -79,6 +80,8 @@ def main(tier, seed):
         r = rng(seed, "c18/%d" % k)
         kw = (k % 4 == 1)
         S = G.gen_schema(r, name="py_%d" % k, keywordish=kw, n_ent=r.randint(3, 10))
+        if k % 3 == 0 and not kw:
+            S = enrich(r, S)      # defined types on defined types, aggregates of defined types, selects of selects
         # avoid x / x_ pairs (the escape appends '_'): outside what the escaping scheme can express
         allnames = [e["name"] for e in S.entities] + [a["name"] for e in S.entities for a in e["attrs"] + e["derived"] + e["inverse"]] + [t["name"] for t in S.types]
         if any(n.endswith("_") and n[:-1] in allnames for n in allnames):
@@ -180,6 +183,12 @@ def main(tier, seed):
                 elif t["kind"] == "aggr":
                     if d["kind"] != "aggr" or d["agg"] != t["agg"] or d["lo"] != t["lo"] or d["hi"] != t["hi"]:
                         what = what or "aggregate type %s: module has %s, schema says %s [%s:%s]" % (tn, d, t["agg"], t["lo"], t["hi"])
+                elif t["kind"] == "ref" and t["root"].startswith("simple:"):
+                    # TYPE a = b; with b a defined simple type: the declared underlying type is b
+                    base_of_target = t["root"].split(":")[1]
+                    alias_ok = d.get("alias") and base_of_target in ("BOOLEAN", "LOGICAL") and d["bases"] == [base_of_target]
+                    if not alias_ok and (d["kind"] != "class" or d["bases"] != [pyname(t["target"])]):
+                        what = what or "defined type %s = %s: module has %s" % (tn, t["target"], d)
             if kw:
                 hist["keyword_names"] += 1
             # ---- model
